@@ -420,6 +420,10 @@ class DemoStorage(ConflictResolvingStorage):
             self._transaction = transaction
             self._stored_oids = set()
             del self._resolved[:]
+            if not a and 'tid' not in k:
+                # tids must keep increasing across the two layers, even
+                # when the base's last transaction is ahead of the clock
+                k['tid'] = ZODB.utils.newTid(self.lastTransaction())
             self.changes.tpc_begin(transaction, *a, **k)
 
     def tpc_vote(self, *a, **k):
